@@ -62,3 +62,36 @@ Proof.
   - inversion Hex; subst. left. reflexivity.
 Qed.
 End Timing.
+
+(* ---- the same over whole runs: every completed 200 was produced by a conditional read of that request, at a point of the run at which
+   the version it answers was the bucket's current version of the archive *)
+Section TimingRun.
+Context `{V:Version}.
+
+Lemma run_labels_none ls : fold_left (fun o l => match o with Some st => exec st l | None => None end) ls None = None.
+Proof. induction ls as [|l ls IH]; cbn; auto. Qed.
+Lemma run_labels_snoc ls l s : run_labels (ls ++ [l]) s = match run_labels ls s with Some s1 => exec s1 l | None => None end.
+Proof. unfold run_labels. rewrite fold_left_app. cbn. reflexivity. Qed.
+Lemma run_labels_nil s : run_labels [] s = Some s.
+Proof. reflexivity. Qed.
+
+Theorem ok_current_during : forall ls s, run_labels ls init = Some s ->
+  forall rid q v o l0, In (rid, q, R200 v o l0) (dones s) ->
+  exists ls1 ls2 s1 a hv o', ls = ls1 ++ LTileDo rid :: ls2 /\ run_labels ls1 init = Some s1 /\
+    get_handler rid (handlers s1) = Some (HWaitTile q a hv o' l0) /\ cur s1 (t_name q) = Some v /\ vtag v = vtag hv /\ o = rbase hv q + o'.
+Proof.
+  intros ls. induction ls as [|l ls IH] using rev_ind; intros s Hrun rid q v o l0 Hin.
+  - inversion Hrun; subst. contradiction.
+  - rewrite run_labels_snoc in Hrun. destruct (run_labels ls init) as [s1|] eqn:E1; [|discriminate].
+    assert (Hoks: In (rid, q, R200 v o l0) (oks s)) by (unfold oks; apply filter_In; split; [exact Hin|reflexivity]).
+    assert (Hback: In (rid, q, R200 v o l0) (oks s1) -> exists ls1 ls2 s0 a hv o', ls ++ [l] = ls1 ++ LTileDo rid :: ls2 /\ run_labels ls1 init = Some s0 /\
+      get_handler rid (handlers s0) = Some (HWaitTile q a hv o' l0) /\ cur s0 (t_name q) = Some v /\ vtag v = vtag hv /\ o = rbase hv q + o').
+    { intro H1. unfold oks in H1. apply filter_In in H1. destruct H1 as [H1 _].
+      destruct (IH s1 eq_refl rid q v o l0 H1) as (ls1 & ls2 & s0 & a & hv & o' & Els & R).
+      exists ls1, (ls2 ++ [l]), s0, a, hv, o'. split; [rewrite Els, <- app_assoc; reflexivity|exact R]. }
+    destruct (ok_only_by_current_read s1 l s Hrun) as [Eq|(rid' & q' & a & hv & o' & l1 & El & Hg & v' & Hc & Ht & Eq)].
+    + rewrite Eq in Hoks. auto.
+    + rewrite Eq in Hoks. destruct Hoks as [E|Hold]; [|auto]. inversion E; subst.
+      exists ls, [], s1, a, hv, o'. repeat split; auto.
+Qed.
+End TimingRun.
